@@ -28,11 +28,11 @@ def run(tier, replay):
     lib.build(tokcommon.GROUP)
     quick = tier == "quick"
     mc = lib.tlc("KValidityMC", cfg="KValidityMC" if quick else "KValidityMC2", pid=PID, workers=4, timeout=900)
-    lib.tlc_must_pass(mc, "KValidityMC: L2Rel against L1Ok outside the known-finding class")
-    # the unconstrained run must exhibit the known defect in the model (vacuity guard of the constraint)
+    lib.tlc_must_pass(mc, "KValidityMC: L2Rel against L1Ok")
+    # the transcription of the RADIUS port BEFORE fix 9e5c126 must still be rejected by L1 (vacuity guard)
     allr = lib.tlc("KValidityMC", cfg="KValidityAll", pid=PID, workers=2, timeout=600)
-    if allr["error"]:
-        lib.tool_error("KValidityAll run failed")
+    if allr["error"] or not allr["violated"]:
+        lib.tool_error("KValidityAll: the pre-fix RADIUS transcription is no longer rejected by L1")
     obs = f"{wd}/obs.ndjson"
     if replay:
         lib.kverif(tokcommon.GROUP, ["valid", "--out", obs, "--replay", replay])
@@ -71,7 +71,7 @@ def run(tier, replay):
         st_hits = tokcommon.selftest("KValidityTrace", PID, lines, mutate, PID)
     R.coverage = {
         "states": mc["distinct"], "transitions": mc["generated"],
-        "model_exhibits_known_defect": bool(allr["violated"]),
+        "model_of_prefix_radius_port_rejected": bool(allr["violated"]),
         "traces_validated_against_impl": sum(1 for r in parsed if r["a"] == "port"),
         "cells_port_asker": cells,
         "l2_drift": len(tv["drift"]), "first_drift_lines": [t[2] for t in tv["drift"][:5]],
